@@ -189,7 +189,9 @@ fn maybe_install_eid(s: &mut Session, r: &mut Rng, c: &Call) {
 /// capacity of a response buffer: usually 64, one time in eight just around a multiple of 256 (a capacity
 /// computed in a narrower integer type wraps there)
 fn rcap(r: &mut Rng, usual: usize) -> usize {
-    if r.chance(1, 8) { r.pick(&[256usize, 256, 256, 512, 768, 1024]) - 3 + r.below(20) as usize } else { usual }
+    if r.chance(1, 8) { r.pick(&[256usize, 256, 256, 512, 768, 1024]) - 3 + r.below(20) as usize }
+    else if r.chance(1, 16) { r.pick(&[0usize, 1, 8, 12, 13, 15, 16, 17]) }      // too short for (most) answers
+    else { usual }
 }
 
 /// one time in five: the buffer the previous operation of this case left behind (an earlier packet, often a
@@ -216,6 +218,13 @@ fn pbuf(r: &mut Rng, base: usize, spread: u64) -> Vec<u8> {
 
 fn buf_for(r: &mut Rng, c: &Call) -> Vec<u8> {
     let n = expected_len(c).unwrap_or(12);
+    // one time in twelve a buffer too short for the packet: whatever the encoder does then, it must not report
+    // success for a frame it could not write
+    if r.chance(1, 12) {
+        let cap = r.pick(&[0usize, 1, 8, 9, 11, n / 2, n.saturating_sub(1), n.saturating_sub(2)]).min(n.saturating_sub(1));
+        let k = r.below(3);
+        return poison(r, cap, k);
+    }
     if let Some(b) = reused(r, n) { return b; }
     let cap = n + match r.below(3) { 0 => 0, 1 => 1, _ => 1 + r.below(40) as usize };
     let k = r.below(3);
@@ -784,6 +793,21 @@ fn control_grid(full: bool, r: &mut Rng, f: &mut dyn FnMut(&str, Vec<u8>)) {
             f(stratum, p.clone());
             let i = p.len() - 1; p[i] ^= 0x10;
             f(stratum, p);
+        }
+    }
+    // self-describing data: a count byte followed by that many entries of 1, 2 or 4 bytes (what a peer with several
+    // versions, types or routes would send): a fixed-length command stays fixed-length however consistent the data looks
+    for cmd in (0..=10u8).chain([0x0Bu8, 0x14]) {
+        for rq in [true, false] {
+            for size in [1usize, 2, 4] {
+                for k in 1..=6usize {
+                    let mut d = vec![k as u8]; d.extend(r.bytes(k * size));
+                    if r.chance(1, 2) { for x in d.iter_mut().skip(1) { *x |= 0xF0; } }     // BCD-looking version entries
+                    let src = r.below(128) as u8;
+                    let body = ctl_body(rq, false, false, r.below(32) as u8, cmd, if rq { None } else { Some(0) }, &d);
+                    f("grid-counted", build_packet(r.below(128) as u8, src, 1, r.byte(), src, 0xC8, 0, &body));
+                }
+            }
         }
     }
     // the short ones: every length 0..13 of a valid packet of every type, PEC refreshed or not
